@@ -264,6 +264,11 @@ def r03_5_shared(repo: Repo, rep: Report):
         c18.r18_2_lookup, c18.r18_4_scoping, c18.r18_7_override_forwarding,
         c20.r20_1_fork_copies, c20.r20_2_inactive_paths,
     ]
+    # ... two parameters that become one symbol (C12 R12.3 / C20 R20.5: a failure that needs them to differ is pruned),
+    # or a cut whose warning is lost ("PASS without a bound warning": C10 R10.2 / R10.3)
+    from hsa.rules import c10, c12
+
+    shared += [c12.r12_3_leaf_freshness, c20.r20_5_uid_nominal, c10.r10_2_loop_logs_reported, c10.r10_3_reports_not_deduplicated]
     seen = set()
     for f in shared:
         if f.__name__ in seen:
